@@ -106,7 +106,9 @@ class Ctx:
         tag = tag or (cfg or module).replace(".cfg", "")
         meta = os.path.join(self.work, "meta_" + tag)
         shutil.rmtree(meta, ignore_errors=True)
-        jopts = ["-XX:+UseParallelGC"]
+        jtmp = os.path.join(self.work, "jtmp")   # SANY's scratch directories: keep them out of /tmp and with the run
+        os.makedirs(jtmp, exist_ok=True)
+        jopts = ["-XX:+UseParallelGC", "-Djava.io.tmpdir=" + jtmp]
         if heap:
             jopts.append("-Xmx" + heap)
         jopts.append("-Xss64m")
@@ -133,6 +135,7 @@ class Ctx:
         p = subprocess.run(cmd, cwd=d, env=e, stdout=subprocess.PIPE, stderr=subprocess.STDOUT, text=True)
         open(os.path.join(self.work, "tlc_%s.log" % tag), "w").write(p.stdout)
         shutil.rmtree(meta, ignore_errors=True)
+        shutil.rmtree(jtmp, ignore_errors=True)
         if p.returncode == 124:
             raise Infra("TLC timeout (%ss) on %s/%s" % (timeout, module, cfg))
         r = TLCResult(p.returncode, p.stdout)
